@@ -388,6 +388,7 @@ def run(ctx):
             rec.count(kind + ":reject")
     for kind, case in preds:
         ok, got, want = eval_pred(kind, case)
+        rec.cov_pred(kind, case)
         if ok:
             rec.ok(kind, repr(case)[:300])
             rec.sample(kind, case, limit=1)
